@@ -535,3 +535,83 @@ func init() {
 	registry["C11"].Meta.Rules["C11.14"] = txt + " (shared with C05.14)"
 	registry["C11"].Rules = append(registry["C11"].Rules, rule("C11.14"))
 }
+
+// ---- the data of a block ends before its checksum (C15.16) ----
+//
+// A block is serialized into a buffer of fixed size whose last bytes take the checksum of everything before them:
+// sum := crc32(buf[:k]); PutUint32(buf[k:], sum). A copy of variable-length content into the open-ended rest of the buffer
+// (copy(buf[o:], data)) must end at or before k - proven from a dominating test - or the checksum is written over the tail of the
+// data and, beyond the buffer, copy drops it silently.
+func checksumAfterDataRule(c *Ctx, r *Result, rule string, scope func(string) bool, floor int) {
+	n := 0
+	for _, fn := range c.LibFuncs() {
+		if fn.Blocks == nil || (scope != nil && !scope(c.Name(fn))) {
+			continue
+		}
+		// the checksum store: PutUint32(buf[k:], crc(buf[:k]))
+		var k ssa.Value
+		var buf ssa.Value
+		var at ssa.Instruction
+		for _, site := range callsIn(fn) {
+			com := site.Common()
+			name := ""
+			if com.IsInvoke() {
+				name = com.Method.Name()
+			} else if f := com.StaticCallee(); f != nil {
+				name = f.Name()
+			}
+			if name != "PutUint32" || len(com.Args) < 2 {
+				continue
+			}
+			sum, isCall := stripConv(com.Args[len(com.Args)-1]).(*ssa.Call)
+			if !isCall || sum.Call.StaticCallee() == nil || !strings.Contains(sum.Call.StaticCallee().String(), "crc32") {
+				continue
+			}
+			dst, isSl := com.Args[len(com.Args)-2].(*ssa.Slice)
+			if !isSl || dst.Low == nil {
+				continue
+			}
+			k, buf, at = dst.Low, stripSlices(dst), site.(ssa.Instruction)
+		}
+		if k == nil {
+			continue
+		}
+		fb := c.FB(fn)
+		j := 0
+		for _, site := range callsIn(fn) {
+			call, isCall := site.(*ssa.Call)
+			if !isCall {
+				continue
+			}
+			if b, isB := call.Call.Value.(*ssa.Builtin); !isB || b.Name() != "copy" {
+				continue
+			}
+			dst, isSl := call.Call.Args[0].(*ssa.Slice)
+			if !isSl || dst.High != nil || stripSlices(dst) != buf || !canReach(call, at) {
+				continue
+			}
+			src := fb.lenLin(call.Call.Args[1])
+			if src.isConst() {
+				continue // a signature: fixed size, placed by the layout
+			}
+			n++
+			j++
+			lo := linConst(0)
+			if dst.Low != nil {
+				lo = fb.lin(dst.Low)
+			}
+			ok := fb.ProveGE0At(fb.lin(k).add(lo, -1).add(src, -1), call)
+			r.Check(ok, rule, fmt.Sprintf("%s#data-ends-before-the-checksum-%d", c.Name(fn), j), c.InstrPos(call), "copy of "+fb.linString(src)+" bytes at "+fb.linString(lo)+": its end is proven <= "+fb.linString(fb.lin(k))+", where the checksum goes (otherwise the last bytes of the data are overwritten by the checksum or dropped, and the block reads back with a valid checksum)")
+		}
+	}
+	if n < floor {
+		r.Shortfall(c, rule, fmt.Sprintf("%s: only %d variable-length copies in checksummed blocks found (expected >= %d)", rule, n, floor))
+	}
+}
+
+func init() {
+	registry["C15"].Meta.Rules["C15.16"] = "the data of a block ends before its checksum: where a block is serialized into a buffer whose tail takes the checksum of what precedes it, every copy of variable-length content into the open-ended rest of the buffer is proven, from a dominating test, to end at or before the checksum's offset (a direct block filled to the last byte of its nominal size was serialized with its last 19 bytes dropped or overwritten, and read back with a valid checksum)"
+	registry["C15"].Rules = append(registry["C15"].Rules, func(c *Ctx, r *Result) {
+		checksumAfterDataRule(c, r, "C15.16", func(n string) bool { return strings.HasPrefix(n, "structures.") }, 1)
+	})
+}
